@@ -14,7 +14,8 @@ from vlib import bodygen as bgm
 from vlib.harness import result, digest, violation
 
 PID = 'C01'
-RULE = ("seeded random coroutine designs of 3..14 statement groups, nesting <=3, up to 3 sub-coroutines; each is explored "
+RULE = ("seeded random coroutine designs of 3..14 statement groups, nesting <=3, up to 3 sub-coroutines (statement forms: App. E; incl. while-True skeletons with early exits / continue as match case, "
+        "match in coroutines, awaited helpers, comments, constant-false loops, record signals); each is explored "
         "breadth first over (vsim state, reference generator position + values) with all input valuations per state "
         "up to an edge budget, then 200/1000 random clocks at input densities 0.15/0.5/0.85.  distinct_nontrivial = "
         "distinct (feature set, statement count, joint states reached) of designs that were accepted, compared "
